@@ -302,6 +302,17 @@ class Gen:
             if ok:
                 n, gl = r.choice(ok)
                 return dict(g=list(gl), n=n, b=False)
+        if r.random() < 0.12:
+            # a bracketed class that mixes plain glyph names with a reference to a named class: [a @CLS u]
+            cap = max(kmax, 4)
+            ok = [(n, gl) for n, gl in self.P["classes"] if len(gl) < cap and all(g in pool for g in gl)]
+            if ok:
+                n, gl = r.choice(ok)
+                rest = [g for g in pool if g not in gl]
+                if rest:
+                    extra = r.sample(rest, min(len(rest), r.randint(1, cap - len(gl))))
+                    cut = r.randint(0, len(extra)) if r.random() < 0.4 else len(extra)
+                    return dict(g=extra[:cut] + list(gl) + extra[cut:], n=None, b=False, nest=[cut, n])
         k = min(len(pool), r.randint(kmin, kmax))
         return dict(g=r.sample(pool, k), n=None, b=(k == 1 and r.random() < 0.15))
 
@@ -899,6 +910,14 @@ class Printer:
         g = s["g"]
         if len(g) == 1 and not s.get("b") and not force:
             return g[0]
+        nest = s.get("nest")
+        if nest:
+            i, n = nest
+            gl = dict(self.P["classes"]).get(n)
+            if gl and list(g[i : i + len(gl)]) == list(gl):  # still intact (some rules trim their sets afterwards)
+                toks = _ranges(g[:i], self.r) + ["@" + n] + _ranges(g[i + len(gl) :], self.r)
+                self.nested_class_refs = getattr(self, "nested_class_refs", 0) + 1
+                return "[" + " ".join(toks) + "]"
         return "[" + " ".join(_ranges(g, self.r)) + "]"
 
     def anchor(self, a):
